@@ -274,11 +274,21 @@ func (p *c06TCPShort) feed(msg []byte) string {
 
 type c06DoQ struct {
 	s *ServerQUIC
+	// extra is added to the length prefix of the probe: the stream then ends
+	// before (or after) the announced number of octets.
+	extra   int
+	fed     int
+	probeAt int
 }
 
 func (p *c06DoQ) feed(msg []byte) string {
 	framed := make([]byte, 2+len(msg))
-	binary.BigEndian.PutUint16(framed, uint16(len(msg)))
+	pfx := len(msg)
+	if p.extra != 0 && p.fed >= p.probeAt {
+		pfx += p.extra
+	}
+	p.fed++
+	binary.BigEndian.PutUint16(framed, uint16(pfx))
 	copy(framed[2:], msg)
 	m, err := p.s.readQUICMsg(context.Background(), &c06Stream{r: bytes.NewReader(framed)})
 
@@ -302,7 +312,7 @@ func (p *c06DoH) feed(msg []byte) string {
 	return fmt.Sprintf("status=%d decoded=%q body=%x", rec.Code, p.h.seen[before:], rec.Body.Bytes())
 }
 
-var c06PathNames = []string{"udp", "tcp", "tcp-short-frame", "doq", "doh-post"}
+var c06PathNames = []string{"udp", "tcp", "tcp-short-frame", "doq", "doh-post", "doq-prefix+1", "doq-prefix+19", "doq-prefix+150", "doq-prefix-3"}
 
 func c06NewPath(name string) c06Path {
 	switch name {
@@ -320,6 +330,11 @@ func c06NewPath(name string) c06Path {
 		return &c06TCPShort{c06TCP{s: s, h: h}}
 	case "doq":
 		return &c06DoQ{s: NewServerQUIC(ConfigQUIC{ConfigBase: ConfigBase{Name: "verif", Addr: "127.0.0.1:0", Handler: &c06Handler{}}})}
+	case "doq-prefix+1", "doq-prefix+19", "doq-prefix+150", "doq-prefix-3":
+		var extra int
+		fmt.Sscanf(strings.TrimPrefix(name, "doq-prefix"), "%d", &extra)
+
+		return &c06DoQ{s: NewServerQUIC(ConfigQUIC{ConfigBase: ConfigBase{Name: "verif", Addr: "127.0.0.1:0", Handler: &c06Handler{}}}), extra: extra, probeAt: -1}
 	case "doh-post":
 		h := &c06Handler{}
 
@@ -359,12 +374,18 @@ func TestVerifC06Server(t *testing.T) {
 			runtime.GC()
 		}
 		warm := c06NewPath(c.Path)
+		if dq, ok := warm.(*c06DoQ); ok {
+			dq.probeAt = len(c.Priors)
+		}
 		for _, pi := range c.Priors {
 			warm.feed(priors[pi])
 		}
 		got := warm.feed(probes[c.Probe])
 		warm.release()
 		fresh := c06NewPath(c.Path)
+		if dq, ok := fresh.(*c06DoQ); ok {
+			dq.probeAt = 0
+		}
 		want := fresh.feed(probes[c.Probe])
 		fresh.release()
 		r.Trans(len(c.Priors) + 2)
